@@ -33,6 +33,7 @@ type replayer struct {
 	running  bool
 	alive    bool
 	curEpoch int // tag of the running pipeline instance
+	stopEp   int // tag of the pipeline instance the operation in progress is stopping
 }
 
 func sameIds(ids []uint64, from, to uint64) bool {
@@ -84,38 +85,47 @@ func (r *replayer) launchPending() {
 	}
 }
 
-// stopTaken: the operation in progress asked the running pipeline to stop; make the real pipeline take
+// progress: the operation in progress asked the running pipeline to stop; make the real pipeline take
 // the request.  A pipeline that is idle sits in ListLogs on its gate (its poll timer is 300us) and does
 // not look at its stop channel there: such a call is released with a storage error, which changes
 // nothing (the code logs it, waits, and selects on the stop channel again).
-func (r *replayer) stopTaken() error {
-	ep := r.curEpoch
+//
+// progress waits until the operation in progress has returned (opDone), or has reached its UpdatePipeline
+// call (atUpdate), or - draining only - is legitimately waiting for the subscriber of the stopped pipeline
+// whose StorePipelineState is still held on its gate (since /repo 9ae9635 stopPipeline waits for it).
+func (r *replayer) progress(what string, opDone, atUpdate, draining bool) error {
+	ep := r.stopEp
 	deadline := time.Now().Add(stepTimeout)
 	for {
-		progressed := false
-		select {
-		case err := <-r.cur.done:
-			r.cur.done <- err // leave it for join
-			progressed = true
-		default:
+		ok := false
+		if opDone {
+			select {
+			case err := <-r.cur.done:
+				r.cur.done <- err // leave it for join
+				ok = true
+			default:
+			}
 		}
-		if !progressed {
+		if !ok && (atUpdate || draining) {
 			r.w.mu.Lock()
 			for _, c := range r.w.pending {
-				if c.Kind == "UpdatePipeline" && c.Ep == r.cur.tag {
-					progressed = true
+				if atUpdate && c.Kind == "UpdatePipeline" && c.Ep == r.cur.tag {
+					ok = true
+				}
+				if draining && c.Kind == "Store" && c.Ep == ep {
+					ok = true
 				}
 			}
 			r.w.mu.Unlock()
 		}
-		if progressed {
+		if ok {
 			return nil
 		}
 		if c := r.w.AwaitCall(200*time.Microsecond, func(c *Call) bool { return c.Kind == "ListLogs" && c.Ep == ep }); c != nil {
 			r.w.Release(c, 2, stepTimeout)
 		}
 		if time.Now().After(deadline) {
-			return fmt.Errorf("TakeStop: %s made no progress (held: %v)", r.cur.name, r.w.PendingCalls())
+			return fmt.Errorf("%s: %s made no progress (held: %v)", what, r.cur.name, r.w.PendingCalls())
 		}
 	}
 }
@@ -157,7 +167,8 @@ func (r *replayer) step(s Step) error {
 		r.pendOp = "shutdown"
 	case "TakeStop":
 		r.launchPending()
-		if err := r.stopTaken(); err != nil {
+		r.stopEp = r.curEpoch
+		if err := r.progress("TakeStop", true, true, true); err != nil {
 			return err
 		}
 		if r.cur.name != "reset" {
@@ -165,7 +176,6 @@ func (r *replayer) step(s Step) error {
 			if r.cur.name == "shutdown" {
 				r.alive = false
 			}
-			return r.join()
 		}
 	case "StopEnd", "ShutdownRelease", "ShutdownEnd":
 		r.launchPending() // shutdown of a manager without a running pipeline
@@ -173,11 +183,21 @@ func (r *replayer) step(s Step) error {
 		if s.A != "StopEnd" {
 			r.alive = false
 		}
+		if !r.curDone {
+			if err := r.progress(s.A, true, false, false); err != nil {
+				return err
+			}
+		}
 		return r.join()
 	case "ResetUpdate":
 		wasRunning := r.running
 		r.launchPending()
 		tag := r.cur.tag
+		if wasRunning {
+			if err := r.progress("ResetUpdate", false, true, false); err != nil {
+				return err
+			}
+		}
 		if err := r.awaitRelease("ResetUpdate", 0, func(c *Call) bool { return c.Kind == "UpdatePipeline" && c.Ep == tag }); err != nil {
 			return err
 		}
@@ -246,6 +266,7 @@ func RunSchedule(sched Schedule) Result {
 	res := Result{ID: sched.ID, Kind: "schedule", Params: map[string]any{"source": sched.Source, "pageSize": sched.PageSize, "steps": len(sched.Steps)}}
 	w := NewWorld(1, 0)
 	w.holdAll = true
+	w.honorCancel = true // once the gates are open the exporter is healthy and honours its context
 	env := NewEnv(w, uint64(sched.PageSize))
 	w.Stamp(Event{K: "Begin", X: uint64(sched.PageSize), Name: sched.ID})
 	defer env.Cleanup()
